@@ -39,7 +39,6 @@ import (
 	"sync"
 	"time"
 
-	"github.com/icon-project/goloop/common/codec"
 	"github.com/icon-project/goloop/common/log"
 	"github.com/icon-project/goloop/consensus"
 	"verif/harness/hxlib"
@@ -94,10 +93,12 @@ func evalRecord(rec *netRecord) string {
 	quorum := func(c int) bool { return c*3 > 2*rec.N }
 	// O1
 	byH := map[int64]string{}
+	told := map[int64]bool{}
 	for _, f := range rec.Finals {
-		if id, ok := byH[f.H]; ok && id != f.ID {
+		if id, ok := byH[f.H]; ok && id != f.ID && !told[f.H] {
+			told[f.H] = true
 			msgs = append(msgs, fmt.Sprintf("(O1) AGREEMENT VIOLATED at height %d: blocks %.8s and %.8s were both finalized by real nodes (recorded)", f.H, id, f.ID))
-		} else {
+		} else if !ok {
 			byH[f.H] = f.ID
 		}
 	}
@@ -113,11 +114,15 @@ func evalRecord(rec *netRecord) string {
 			if v.Seq > f.Seq || v.H != f.H || v.Type != 1 || v.Block != f.ID {
 				continue
 			}
-			var vm consensus.VoteMessage
-			if _, err := codec.UnmarshalFromBytes(v.Bytes, &vm); err != nil {
+			m, err := consensus.UnmarshalMessage(consensus.ProtoVote.Uint16(), v.Bytes)
+			if err != nil {
 				continue
 			}
-			a := consensus.VerifSigner(&vm)
+			vm, ok := m.(*consensus.VoteMessage)
+			if !ok {
+				continue
+			}
+			a := consensus.VerifSigner(vm)
 			if a == nil || v.From < 0 || v.From >= len(rec.Validators) || a.String() != rec.Validators[v.From] {
 				continue
 			}
@@ -600,13 +605,9 @@ func replay(raw json.RawMessage) string {
 	if err := json.Unmarshal(raw, &in); err != nil {
 		return "bad replay input: " + err.Error()
 	}
-	if in.Rec != nil {
-		if msg := evalRecord(in.Rec); msg != "" {
-			return msg + " [re-evaluated on the recorded traffic; first recorded oracle message: " + firstOf(in.Rec.Oracle) + "]"
-		}
-	}
-	// run the scenario again (same seed: same scenario as far as the timers allow)
-	for try := 0; try < 2; try++ {
+	// run the scenario again (same seed: same scenario as far as the timers
+	// allow; the directed scenarios reproduce)
+	for try := 0; try < 3; try++ {
 		res := runNet(in.Cfg)
 		msg := ""
 		if res.nw != nil {
@@ -615,6 +616,13 @@ func replay(raw json.RawMessage) string {
 		res.finish()
 		if msg != "" {
 			return msg
+		}
+	}
+	// not reproduced live: the recorded traffic of the original run is evidence
+	// by itself (signed votes, finalizes): re-evaluate O1, O2, O4 on it
+	if in.Rec != nil {
+		if msg := evalRecord(in.Rec); msg != "" {
+			return msg + " [not reproduced in 3 live runs on this tree; re-evaluated on the recorded traffic of the original run, whose first oracle message was: " + firstOf(in.Rec.Oracle) + "]"
 		}
 	}
 	return ""
